@@ -612,6 +612,7 @@ def ensure_stream(run):
 def correspond(run: lib.Run):
     st = ensure_stream(run)
     groups = st["groups"]
+    coremodel.warm_replay(run, groups, "c03")      # conformance must hold for the k-th call of any history too
     bad, bad_verdict, nverd = evaluate(run, st, "c03", run.budget(24, 30))
     ncases = sum(len(g.cases) for g in groups)
     distinct = len({(g.env["module"], c[0], c[1], c[2]) for g in groups for c in g.cases})
